@@ -22,6 +22,7 @@ from adaptix._internal.morphing.request_cls import DumperRequest, LoaderRequest
 from adaptix._internal.provider.request_checkers import AlwaysTrueRequestChecker
 
 from mc import env, parallel
+from mc.env import CaseTimeout, deadline
 from mc.report import Report
 
 META = {
@@ -258,9 +259,9 @@ class Probe(Provider):
     def get_request_handlers(self):
         def handler(mediator, request):
             self.log.append((self.tag, _loc_name(request)))
-            if len(self.log) > 500:
+            if len(self.log) > CONSULT_LIMIT:
                 # a routing loop (the same provider selected again and again) would never return: make it visible
-                raise RuntimeError(f"provider {self.tag} consulted more than 500 times for one request")
+                raise RuntimeError(f"provider {self.tag} consulted more than {CONSULT_LIMIT} times for one request")
             if self.kind == "decline":
                 raise CannotProvide("declined by probe")
             if self.kind == "delegate":
@@ -309,18 +310,28 @@ def _norm(x):
     return (type(x).__name__, x) if not isinstance(x, Model) else ("Model", _norm(x.a))
 
 
+CASE_DEADLINE = 30      # seconds; a single trace takes milliseconds
+CONSULT_LIMIT = 120     # consults of one probe provider while serving one request (legitimate traces stay below 40)
+
+
 def impl_trace(recipe, req, direction, retort_factory=None):
     log, calls = [], []
     providers = [build_provider(i, sym, log, calls) for i, sym in enumerate(recipe)]
     retort = retort_factory(providers) if retort_factory else Retort(recipe=providers)
     tp = REQUEST_TYPES[req]
     try:
-        func = retort.get_loader(tp) if direction == "load" else retort.get_dumper(tp)
+        with deadline(CASE_DEADLINE):
+            func = retort.get_loader(tp) if direction == "load" else retort.get_dumper(tp)
+    except CaseTimeout:
+        return {"consults": list(log)[:20], "create_error": f"DOES NOT TERMINATE: no loader/dumper within {CASE_DEADLINE} s (routing loop)"}
     except Exception as e:  # noqa: BLE001
         return {"consults": list(log), "create_error": f"{type(e).__name__}: {e}"[:200]}
     consults = list(log)
     try:
-        result = ("ok", _norm(func(DATA[direction][req])))
+        with deadline(CASE_DEADLINE):
+            result = ("ok", _norm(func(DATA[direction][req])))
+    except CaseTimeout:
+        result = ("exc", "DOES NOT TERMINATE")
     except Exception as e:  # noqa: BLE001
         result = ("exc", type(e).__name__)
     return {"consults": consults, "calls": list(calls), "result": result, "late_consults": log[len(consults):]}
@@ -526,6 +537,20 @@ def part2(tier, report):
 
 
 def _check_options(retort, sc, dt, hist, report):
+    try:
+        with deadline(CASE_DEADLINE):
+            _check_options_inner(retort, sc, dt, hist, report)
+    except CaseTimeout:
+        report.violation({"check": "C09.options", "problem": "does_not_terminate"},
+                         f"history {hist}: load did not return within {CASE_DEADLINE} s (routing loop)",
+                         {"part": "options", "history": [list(map(str, h)) for h in hist]})
+    except Exception as e:  # noqa: BLE001
+        report.violation({"check": "C09.options", "problem": "unexpected_exception", "exc": type(e).__name__},
+                         f"history {hist}: {type(e).__name__}: {str(e)[:200]}",
+                         {"part": "options", "history": [list(map(str, h)) for h in hist]})
+
+
+def _check_options_inner(retort, sc, dt, hist, report):
     from adaptix.load_error import AggregateLoadError, LoadError
     from adaptix.struct_trail import get_trail
 
@@ -572,7 +597,12 @@ def _retort_in_recipe(inner_syms, outer_sym, bound_to, report):
     report.count("states", len(out.states))
     report.count("transitions", out.transitions)
     try:
-        ld = outer.get_loader(Decimal)
+        with deadline(CASE_DEADLINE):
+            ld = outer.get_loader(Decimal)
+    except CaseTimeout:
+        report.violation({"check": "C09.retort_in_recipe", "problem": "does_not_terminate"},
+                         f"{case}: get_loader did not return within {CASE_DEADLINE} s (routing loop)", case)
+        return
     except Exception as e:  # noqa: BLE001
         report.violation({"check": "C09.retort_in_recipe", "problem": "creation_failed"},
                          f"{case}: {type(e).__name__}: {e}"[:300], case)
